@@ -36,7 +36,8 @@ REQUIRED_CLASSES = {"all": ["ro_mutation_refused", "skel_read_refused", "local_u
 BUDGET_S = {"quick": 900, "thorough": 4 * 3600}
 FLAGS = ["read_only", "local_only", "skel_only"]
 STARTS = ["/", "/g", "/g/h", "/g/d2"]
-PRIMS = ["child0", "childN", "get0", "values0", "items0", "visit0", "reqgrp", "parent", "query0", "deep"]
+PRIMS = ["child0", "childN", "get0", "values0", "items0", "visit0", "reqgrp", "parent", "query0", "deep", "file",
+         "child0+read_only", "childN+skel_only"]  # (the last two: a child that is restricted further before going on)
 
 
 def build(driver, d):
@@ -73,9 +74,14 @@ class NA(Exception):
 
 def navigate(node, prim):
     isg = hasattr(node, "keys") and hasattr(node, "create_group")
+    if "+" in prim:
+        base, flag = prim.split("+")
+        return navigate(node, base).restrict(**{flag: True})
     try:
         if prim == "parent":
             return node.parent
+        if prim == "file":
+            return node.file
         if prim == "query0":
             res = list(node.metador.query("verif.base"))
             if not res:
@@ -126,6 +132,8 @@ def mut_ops(node):
         ("attrs.create", lambda: a.create("zz", 1)), ("attrs.modify", lambda: a.modify(ak, 6)),
         ("meta.__setitem__", lambda: node.meta.__setitem__("core.table", {"name": "t", "columns": []})),
         ("meta.__delitem__", lambda: node.meta.__delitem__(sorted(node.meta.keys())[0])),
+        ("meta.values.node.attrs", lambda: list(node.meta.values())[0].node.attrs.__setitem__("zz", 1)),
+        ("meta.items.node.file", lambda: list(node.meta.items())[0][1].node.file.__setitem__("written_via_meta_node", 1)),
     ]
     if isg:
         child = sorted(node.keys())[0] if len(node) else "nochild"
@@ -163,6 +171,9 @@ def read_ops(node):
     ]
     if not isg:
         ops += [("dataset.__getitem__", lambda: node[()]), ("dataset.get_slice", lambda: node[...])]
+        if getattr(node, "shape", ()) != ():  # contents through the sequence / array protocols
+            ops += [("dataset.__iter__", lambda: list(node)), ("dataset.__contains__", lambda: 2 in node),
+                    ("dataset.sum", lambda: sum(node)), ("dataset.np_array", lambda: np.array(node))]
     return ops
 
 
@@ -205,7 +216,9 @@ def upward_ops(node, root):
             pass
         return seen
 
-    ops += [("query_default", lambda: [n.name for n in node.metador.query("verif.base")]),
+    ops += [("meta_values_node_file", lambda: list(node.meta.values())[0].node.file.name),
+            ("meta_values_node_parent", lambda: list(node.meta.values())[0].node.parent.parent.name),
+            ("query_default", lambda: [n.name for n in node.metador.query("verif.base")]),
             ("query_node_none", lambda: [n.name for n in node.metador.query("verif.base", node=None)]),
             ("query_other", lambda: [n.name for n in node.metador.query("verifother.thing")]),
             ("zz_self_local_parent", self_local)]  # last: it changes the flags of the derived node
@@ -258,6 +271,8 @@ def run_block(driver, start, flags, late, maxlen, rec):
                     break
             if not ok:
                 continue
+            eff = sorted(set(flags) | {pr.split("+")[1] for pr in chain if "+" in pr})  # flags every derived node must carry
+            ro, sk = ("read_only" in eff), ("skel_only" in eff)
             case = dict(driver=driver, start=start, flags=sorted(flags), late=late, chain=list(chain))
             # -- acl inheritance and locality
             try:
@@ -265,9 +280,9 @@ def run_block(driver, start, flags, late, maxlen, rec):
             except Exception as e:  # noqa: BLE001
                 rec.fail("C15:derived-node-without-acl", case, f"{type(node).__name__}: {e}", "restricted node")
                 continue
-            lost = [f for f in flags if not acl.get(f)]
+            lost = [f for f in eff if not acl.get(f)]
             if lost:
-                rec.fail(f"C15:flag-lost:{'+'.join(lost)}:{chain[-1] if chain else 'start'}", case, f"derived node {node.name} has acl {acl}", f"superset of {sorted(flags)}")
+                rec.fail(f"C15:flag-lost:{'+'.join(lost)}:{chain[-1] if chain else 'start'}", case, f"derived node {node.name} has acl {acl}", f"superset of {eff}")
                 continue
             if lo and not within(node.name, start):
                 rec.fail(f"C15:local-only-escaped:{chain[-1]}", case, f"reached {node.name}", f"within {start}")
@@ -391,7 +406,7 @@ def run_control(driver, rec):
 
 def _run_control(driver, rec):
     for start in STARTS:
-        for chain in [()] + [(p,) for p in PRIMS]:
+        for chain in [()] + [(p,) for p in PRIMS if "+" not in p]:
             probe_d = H.new_scratch("vt-c15c-")
             try:
                 mc = from_template(driver, probe_d)
@@ -417,6 +432,7 @@ def _run_control(driver, rec):
                     expect_ok = not (name in ("attrs.create", "attrs.modify", "dataset.write_direct", "dataset.resize") or
                                      (name in ("__delitem__", "move", "copy", "copy_nometa") and len(node) == 0) or
                                      (name == "meta.__delitem__" and len(node.meta.keys()) == 0) or
+                                     (name.startswith("meta.values.") or name.startswith("meta.items.")) and len(node.meta.keys()) == 0 or
                                      (name == "dataset.__setitem__" and not (driver == "h5" and node.name == "/g/h/d3")) or
                                      (driver != "h5" and name in ("attrs.update", "attrs.pop", "attrs.clear", "attrs.setdefault", "attrs.popitem")))
                     try:
